@@ -250,3 +250,17 @@ PROPS["C05"] = {
     "min_nontrivial": {"quick": 1500, "thorough": 1500},
     "assumptions": ["functions returned as results are compared by parameter list only", "error messages are not compared (reloaded functions are anonymous)"],
 }
+
+PROPS["C17"] = {
+    "shards": {"quick": 16, "thorough": 16},
+    "rule": ("the unit table is read at run time from the build under test (units::get_all_units). Exhaustive: (1) every identifier of every unit resolves to that unit; upper / lower / "
+             "capitalised / swapped-case spellings follow 'unique case-insensitive match or error' per the harness's own model; unknown and near-miss spellings are errors; "
+             "(2) all identifiers of a unit convert bit-identically; (3) A->A returns the value exactly; (4) A->B->A within 8 ulp of the largest magnitude on the path; (5) A->B->C vs "
+             "A->C within the same tolerance for same-category triples (every 7th in quick, all in thorough); (6) `<prefix><base>`, `square <prefix><base>`, `cubic <prefix><base>` "
+             "families (SI yocto..yotta, binary kibi..yobi) have ratio 10^k / 2^k within 4 ulp; (7) every cross-category ordered pair is an error; the convert built-in goes through "
+             "the same table with (value, from, to). Magnitudes 0, +-1e-12 .. +-1e12. every case is non-trivial (a table entry)"),
+    "exhaustive": True,
+    "exhaustive_subspaces": ["identifiers", "ordered unit pairs x 13 magnitudes", "same-category triples (thorough)", "prefix families"],
+    "min_nontrivial": {"quick": 20000, "thorough": 20000},
+    "assumptions": ["absolute coefficients of non-prefixed units are not claimed by the statement and not checked"],
+}
